@@ -190,7 +190,7 @@ class C05(Property):
     bytes_per_case = 1024
     technique = ("property-based testing (PyGen programs under random layouts + mutants that still lex): tiling / spelling / NEWLINE-INDENT-DEDENT invariants in "
                  "both lexer configurations and a differential against CPython's tokenize")
-    level_text = ('~30k (quick) / 500k (thorough) texts that lex without error, in the default and the full-lexer build: token ranges inside the input, on char '
+    level_text = ('~80k (quick) / 500k (thorough) texts that lex without error, in the default and the full-lexer build: token ranges inside the input, on char '
                   'boundaries, ordered and disjoint; every gap only whitespace / comments / backslash joins (no comment or bare newline at all under full-lexer); '
                   "each token's text spells it (operator and keyword table from the language reference; numbers by Python's own int/float/complex); NEWLINE only "
                   "outside brackets; INDENT/DEDENT balanced and at line starts; significant tokens equal CPython tokenize's on LF/CRLF texts")
@@ -199,7 +199,7 @@ class C05(Property):
             '{INDENT, string, continuation, comment, non-ASCII, CR/CRLF}; distinct by case hash')
 
     def budget(self, tier):
-        return 30000 if tier == 'quick' else 500000
+        return 80000 if tier == 'quick' else 500000
 
     def explicit_cases(self, ctx):
         for t in ['', 'x', 'x\n', '\n', '# c', '# c\n', 'if x:\n  y\n', 'if x:\n  y', 'if a:\n if b:\n  c\nd\n', '(\n)\n', 'x = [\n 1, # c\n 2\n]\n', 'x \\\n + 1\n',
